@@ -78,3 +78,33 @@ pub open spec fn jobs_tile(t0: Seq<Event>, t1: Seq<Event>, src: Inode, out: Inod
     &&& t1.len() == n0 + nb
     &&& forall|k: int| 0 <= k < nb ==> #[trigger] t1[n0 + k] == Event::Job(src, out, start + k * bs, if len - k * bs < bs { len - k * bs } else { bs })
 }
+
+/// the single byte between two consecutive kernel extents one byte apart (what merge_extents deems adjacent)
+pub open spec fn kgap(k: Seq<KExt>, b: int) -> bool { exists|i: int| 0 <= i < k.len() - 1 && kend(#[trigger] k[i]) == b && k[i + 1].logical == b + 1 }
+/// every job queued at or after `from` lies inside one of the ranges `s[0..upto)`
+pub open spec fn jobs_in_ranges(t: Seq<Event>, from: int, s: Seq<Extent>, upto: int) -> bool {
+    forall|k: int| from <= k < t.len() && (#[trigger] t[k]) is Job ==> exists|j: int| 0 <= j < upto && (#[trigger] s[j]).start <= t[k]->Job_2 && t[k]->Job_2 + t[k]->Job_3 <= s[j].end
+}
+/// every byte of every job queued at or after `from` is mapped by FIEMAP or is such a gap byte (C11 for the parblock driver)
+pub open spec fn jobs_in_kext(t: Seq<Event>, from: int, k: Seq<KExt>) -> bool {
+    forall|i: int, b: int| from <= i < t.len() && (#[trigger] t[i]) is Job && t[i]->Job_2 <= b < t[i]->Job_2 + t[i]->Job_3 ==> #[trigger] in_kext(k, b) || kgap(k, b)
+}
+pub proof fn lemma_mirror_cover(v: Seq<Extent>, k: Seq<KExt>, b: int)
+    requires mirrors(v, k, k.len() as int)
+    ensures covered(v, b) ==> in_kext(k, b), in_gap(v, b) ==> kgap(k, b),
+{
+    if covered(v, b) { let i = choose|i: int| 0 <= i < v.len() && inx(#[trigger] v[i], b); assert(k[i].logical <= b < kend(k[i])); }
+    if in_gap(v, b) { let i = choose|i: int| 0 <= i < v.len() - 1 && (#[trigger] v[i]).end == b && v[i + 1].start == b + 1; assert(kend(k[i]) == b && k[i + 1].logical == b + 1); }
+}
+pub proof fn lemma_jobs_in_kext(t: Seq<Event>, from: int, smap: Seq<Extent>, exts: Seq<Extent>, k: Seq<KExt>)
+    requires jobs_in_ranges(t, from, smap, smap.len() as int), merge_gaps_ok(exts, smap), mirrors(exts, k, k.len() as int)
+    ensures jobs_in_kext(t, from, k)
+{
+    reveal(merge_gaps_ok);
+    assert forall|i: int, b: int| from <= i < t.len() && (#[trigger] t[i]) is Job && t[i]->Job_2 <= b < t[i]->Job_2 + t[i]->Job_3 implies #[trigger] in_kext(k, b) || kgap(k, b) by {
+        let j = choose|j: int| 0 <= j < smap.len() && (#[trigger] smap[j]).start <= t[i]->Job_2 && t[i]->Job_2 + t[i]->Job_3 <= smap[j].end;
+        assert(inx(smap[j], b));
+        assert(covered(smap, b));
+        lemma_mirror_cover(exts, k, b);
+    }
+}
